@@ -115,6 +115,10 @@ def sites_of(F, path):
             kind = m["k"]
             if kind == "Overflow":
                 kind = "overflow:" + m.get("op", "?")
+            if kind == "Other" and m.get("dbg", "").startswith(("MisalignedPointerDereference", "NullPointerDereference")) and (t.get("expn") or "") in ("Bang:vec",):
+                # debug-build pointer checks rustc inserts for the raw-pointer write inside std's own `vec![a, b]`
+                # expansion (box allocation): not a source-level panic site of this crate
+                continue
             out.append({"fn": path, "kind": kind, "spx": t.get("spx"), "sp": FX.short(t.get("sp")), "expn": t.get("expn"), "detail": ""})
         elif t["k"] in ("Call", "TailCall"):
             f = t["func"]
